@@ -62,6 +62,9 @@ fn check(case: &str) -> Option<String> {
     match p[0] {
         "dec" => {
             let lit = p[1];
+            if !lit.starts_with('#') && (lit.contains('.') || lit.contains('e') || lit.contains('E')) && lit.parse::<f64>().map(|f| f.is_finite()).unwrap_or(false) {
+                if let Some(m) = dec_opt(lit, true) { return Some(format!("{} [Options::elisp()]", m)); }
+            }
             let want: f64 = lit.trim_start_matches("#d").parse().ok()?;
             match lexpr::from_str(lit) {
                 Ok(v) => {
@@ -203,9 +206,16 @@ fn check(case: &str) -> Option<String> {
 /// a normal-range value is within 2^-50 (subnormal results, where that precision does not exist, are only required to be finite and close in
 /// absolute terms), and digits below 2^53 with a written and an effective exponent of magnitude at most 22 are exact.
 fn dec_one(lit: &str) -> Option<String> {
+    // the same literal under the Emacs Lisp options (leading-digit symbols on: a digit-initial token is first tried as a number) denotes the same number
+    if let Some(m) = dec_opt(lit, true) { return Some(format!("{} [Options::elisp()]", m)); }
+    dec_opt(lit, false)
+}
+fn dec_opt(lit: &str, elisp: bool) -> Option<String> {
     let want: f64 = lit.parse().ok()?;
-    let r = lexpr::from_str(lit);
+    let r = if elisp { lexpr::from_str_custom(lit, lexpr::parse::Options::elisp()) } else { lexpr::from_str(lit) };
     if want.is_infinite() {
+        // under leading-digit symbols a digit-initial token that is not a readable number is a symbol (C08's business): not a number either way
+        if elisp { if let Ok(v) = &r { if v.is_symbol() { return None; } } }
         return match r { Ok(v) => Some(format!("from_str({:?}) = {} although no double can hold the value", lit, v)), Err(_) => None };
     }
     let v = match r { Ok(v) => v, Err(e) => return Some(format!("from_str({:?}) fails: {} (the literal denotes {:?})", lit, e, want)) };
